@@ -1,0 +1,58 @@
+//go:build verif
+
+// Assumed contracts (A-sql-5) for the generated database layer of the shutter-service keyper; bodies are
+// sqlc code over pgx and are not verified (`trusted`). Each clause restates the WHERE clause of the query
+// in sql/queries/shutterservice.sql. Comments only.
+package database
+
+//@ // A-db-3: identity_registered_event holds one row per identity (the identity is computed from the unique
+//@ // key (identity_prefix, sender)), so a row is a function of the identity bytes
+//@ ufn regExists(Bytes) Bool
+//@ ufn regTime(Bytes) Int
+//@ ufn regEon(Bytes) Int
+//@ ufn regDecrypted(Bytes) Bool
+//@ pred regRow(e) := regExists(content(e.Identity)) && regTime(content(e.Identity)) == e.Timestamp && regEon(content(e.Identity)) == e.Eon && regDecrypted(content(e.Identity)) == e.Decrypted
+//@ // identity_registered_event rows with timestamp in [$1, $2] and decrypted = false
+//@ func (*Queries).GetNotDecryptedIdentityRegisteredEvents
+//@   trusted
+//@   requires q != nil
+//@   ensures ret1 != nil ==> len(ret0) == 0
+//@   ensures forall i :: 0 <= i && i < len(ret0) ==> (!ret0[i].Decrypted && arg.Timestamp <= ret0[i].Timestamp && ret0[i].Timestamp <= arg.Timestamp_2)
+//@   ensures forall i :: 0 <= i && i < len(ret0) ==> regRow(ret0[i])
+//@
+//@ // fired_triggers joined with their registration (key (eon, identity)): only rows whose registration is not
+//@ // decrypted. firedFor(eon, identity): a fired_triggers row exists; etDecrypted: the registration's flag.
+//@ ufn firedFor(Int, Bytes) Bool
+//@ ufn etDecrypted(Int, Bytes) Bool
+//@ pred firedRow(r) := firedFor(r.Eon, content(r.Identity)) && !etDecrypted(r.Eon, content(r.Identity)) && !r.Decrypted
+//@ func (*Queries).GetUndecryptedFiredTriggers
+//@   trusted
+//@   requires q != nil
+//@   ensures ret1 != nil ==> len(ret0) == 0
+//@   ensures forall i :: 0 <= i && i < len(ret0) ==> firedRow(ret0[i])
+//@
+//@ // registrations that are not expired at blockNumber, not decrypted and not fired
+//@ func (*Queries).GetActiveEventTriggerRegisteredEvents
+//@   trusted
+//@   requires q != nil
+//@   ensures ret1 != nil ==> len(ret0) == 0
+//@   ensures forall i :: 0 <= i && i < len(ret0) ==> (!ret0[i].Decrypted && ret0[i].ExpirationBlockNumber >= blockNumber)
+//@
+//@ // ghost trace of the flag updates: (number of eons, number of identities); UNNEST pairs the two arrays
+//@ // positionally, which is the intended (eon, identity) pairing only when they have the same length
+//@ evdecl flagTimeBased(Int, Int)
+//@ evdecl flagEventBased(Int, Int)
+//@ func (*Queries).UpdateTimeBasedDecryptedFlags
+//@   trusted
+//@   requires q != nil && len(arg.Eons) == len(arg.Identities)
+//@   event flagTimeBased(len(arg.Eons), len(arg.Identities))
+//@ func (*Queries).UpdateEventBasedDecryptedFlags
+//@   trusted
+//@   requires q != nil && len(arg.Eons) == len(arg.Identities)
+//@   event flagEventBased(len(arg.Eons), len(arg.Identities))
+//@
+//@ evdecl firedTrigger(Int, Bytes, Int)
+//@ func (*Queries).InsertFiredTrigger
+//@   trusted
+//@   requires q != nil
+//@   event firedTrigger(arg.Eon, content(arg.Identity), arg.BlockNumber)
